@@ -1,7 +1,7 @@
 (** C10 — A client call only ever returns a response to its own transaction. *)
 From Coq Require Import List Arith Lia Bool Sorted.
 Import ListNotations.
-From DV Require Import Client.Routing Client.Macro Client.Delivery.
+From DV Require Import Client.Routing Client.Macro Client.Delivery Client.Reuse.
 
 (** The receive loop / send / cancel of nclient4 and nclient6 as atomic steps;
     [run_events true l] is the state after ANY interleaving [l] of any number
@@ -69,6 +69,38 @@ Print Assumptions C10_received_prefix_of_arrivals.
 (** non-vacuity: matcher held on the first of seven datagrams (one received, five queued, one held by the
     blocked loop), first acceptable at position 6: the matcher sees all seven in order *)
 Example C10_example_full_buffer : matcher_sees [10; 11; 12; 13; 14; 15; 16] 6 = [10; 11; 12; 13; 14; 15; 16].
+Proof. vm_compute. reflexivity. Qed.
+
+(** The same id over time ([Client/Reuse.v]: successive calls register under one id; the loop holds the registry
+    lock while it is parked on a full buffer; an entry is removed by the loop when it finds the call gone, or by
+    the call's own cancel).  After ANY sequence of registrations, loop reads, receives, give-ups and cancels:
+    an entry is only ever removed for a call that is over; a registered call that is still waiting has lost
+    nothing; the loop is never parked except for the registered, still waiting call; a new call starts empty. *)
+Theorem C10_entry_removed_only_when_over : forall l, Forall (fun gb => snd gb = true) (r_removed (rrun l)).
+Proof. exact removed_only_when_over. Qed.
+Print Assumptions C10_entry_removed_only_when_over.
+
+Theorem C10_registered_call_loses_nothing : forall l, let s := rrun l in
+  r_pending s <> None -> d_done (r_ch s) = false ->
+  d_arr (r_ch s) = d_got (r_ch s) ++ d_buf (r_ch s) ++ held_list (r_ch s).
+Proof. exact registered_call_loses_nothing. Qed.
+Print Assumptions C10_registered_call_loses_nothing.
+
+Theorem C10_parked_only_for_the_registered_call : forall l m, let s := rrun l in
+  r_pending s <> None -> d_held (r_ch s) = Some m -> d_done (r_ch s) = false /\ length (d_buf (r_ch s)) = dcap.
+Proof. exact parked_for_the_registered_call. Qed.
+Print Assumptions C10_parked_only_for_the_registered_call.
+
+Theorem C10_registration_fresh_or_refused : forall s,
+  (r_pending s = None -> let s' := rstep s RReg in r_pending s' = Some (r_gen s) /\ r_ch s' = dinit /\ r_gen s' = S (r_gen s)) /\
+  (forall g, r_pending s = Some g -> let s' := rstep s RReg in r_pending s' = Some g /\ r_ch s' = r_ch s /\ r_refused s' = S (r_refused s)).
+Proof. intros s. split; [exact (registration_is_fresh s) | exact (registration_refused_while_registered s)]. Qed.
+Print Assumptions C10_registration_fresh_or_refused.
+
+(** non-vacuity, and the scenario run on both clients: the first call's matcher is held on the first of seven
+    datagrams, it accepts that one and returns while five are queued and one is parked; the second call takes the
+    id at once and receives its own answer, nothing of the first call's *)
+Example C10_example_reuse : reuse_scenario [10; 11; 12; 13; 14; 15; 16] 99 = ([10], [99], Some 1).
 Proof. vm_compute. reflexivity. Qed.
 
 (** the invariant behind these statements holds in every reachable state *)
